@@ -250,7 +250,12 @@ def main():
             p = draw_params(rng, algo)
             if undamped and algo == "newmark":
                 p["beta"], p["gamma"] = 0.25, 0.5
-            set_algo(simu, algo, p)
+            if not parabolic and not undamped and seq % 2 == 1 and step > 0:
+                # every other damped sequence keeps ONE scheme with ONE set of parameters from its first step on (and does not call the
+                # setter again): the only thing that changes half-way is the damping
+                algo, p = history[0]["algo"], {k_: v_ for k_, v_ in history[0].items() if k_ != "algo"}
+            else:
+                set_algo(simu, algo, p)
             P = effective(algo, p)
             history.append(dict(algo=algo, **p))
             res.count("algo:" + algo)
@@ -494,6 +499,42 @@ def main():
             if stop:
                 break
         res.sample(dict(scenario="several-simulations", group=grp, algos=algos_g, params=params_g))
+
+    # ---------------- a viscous hyperelastic plate: every term of its equation of motion carries the thickness ----------------
+    # K u_t + C v_t + M a_t = load is an identity between forces per unit thickness times the thickness: two plates that differ by their
+    # thickness only, in the same state, return matrices and internal forces in the ratio of the thicknesses (C included: it is the
+    # matrix the step multiplies v_t with, and coefC C is part of the Newton matrix)
+    try:
+        from EasyFEA.Geoms import Domain as _Dom
+        rsv = np.random.default_rng(4)
+        outs = {}
+        for thv in (1.0, 3.0):
+            mshv = _Dom((0, 0), (3.0, 1.0), 0.5).Mesh_2D([], "QUAD4", isOrganised=True)
+            matv = Models.HyperElastic.NeoHookean(2, K=50.0, thickness=thv)
+            matv.eta = 2.0
+            sv_ = Simulations.HyperElastic(mshv, matv, verbosity=False)
+            sv_.rho = 1.5
+            sv_.Solver_Set_Hyperbolic_Algorithm(0.05, algo=AlgoType.midpoint)
+            ptv = sv_.problemType
+            nv_ = mshv.Nn * 2
+            if "state" not in outs:
+                outs["state"] = (rsv.standard_normal(nv_) * 0.02, rsv.standard_normal(nv_) * 0.5, rsv.standard_normal(nv_) * 0.5, rsv.standard_normal(nv_) * 0.02)
+            st_ = outs["state"]
+            sv_._Set_solutions(ptv, st_[0].copy(), st_[1].copy(), st_[2].copy())
+            sv_._Simu__Solver_Set_Newton_Raphson_current_solution(st_[3].copy())
+            Kv, Cv, Mv, Fv = sv_.Get_K_C_M_F(ptv)
+            outs[thv] = (Kv.toarray(), Cv.toarray(), Mv.toarray(), np.asarray(Fv.todense()).ravel())
+        res.case(("viscous plate thickness",))
+        if not (np.abs(outs[1.0][1]).max() > 0):
+            res.disagree("vacuous", dict(note="the viscous plate has no damping matrix"))
+        for k_, nm_ in enumerate(("K", "C", "M", "F")):
+            a1_, a3_ = outs[1.0][k_], outs[3.0][k_]
+            if not (np.abs(a3_ - 3.0 * a1_).max() <= 1e-9 * (1e-30 + np.abs(a3_).max() + np.abs(a1_).max())):
+                res.fail(f"viscous hyperelastic plate: {nm_} does not carry the thickness",
+                         f"two plates in the same state, thickness 3 and thickness 1: {nm_}(3) differs from 3 {nm_}(1) by {np.abs(a3_ - 3.0 * a1_).max():.3e} (|{nm_}(1)| = {np.abs(a1_).max():.3e}): "
+                         f"the terms of K u_t + C v_t + M a_t = load are not in the same units", dict(sim="HyperElastic", law="NeoHookean K=50, eta=2", scheme="midpoint dt=0.05", thicknesses=[1.0, 3.0]))
+    except Exception as ex:  # noqa: BLE001
+        res.fail("viscous hyperelastic plate raises", f"{type(ex).__name__}: {str(ex)[:200]}", dict(sim="HyperElastic"))
 
     # ---------------- correspondence with the Lean definitions ----------------
     answers = driver.ask(lines)
